@@ -80,8 +80,8 @@ type Case struct {
 	TicksUs   []int64 `json:"ticks_us"`
 	PeriodUs  int64   `json:"period_us,omitempty"`
 	HorizonUs int64   `json:"horizon_us,omitempty"`
-	JobDurUs int64   `json:"job_dur_us"`
-	Ops      []Op    `json:"ops"`
+	JobDurUs  int64   `json:"job_dur_us"`
+	Ops       []Op    `json:"ops"`
 	// Resched: after the job is finished, schedule the same name again.
 	Resched bool `json:"resched"`
 	Reps    int  `json:"reps"`
